@@ -9,7 +9,7 @@ import jsonpath
 from jsonpath import JSONPathEnvironment
 
 from vlib import spines
-from vlib.hs import Leaf, P, kf, ok, pick, small, why
+from vlib.hs import Leaf, P, alist, drive, kf, ok, pick, small, why
 
 ENV = JSONPathEnvironment()
 OPERANDS: List[str] = P.get("operands", ["$.*"])
@@ -107,8 +107,27 @@ def forms(i0: int, i1: int, n: int, b0: bool) -> bool:
     m_text = COMPILED.match(text)
     q_file = list(ENV.query(QTEXT, io.StringIO(text)).values())
     first = [base[0]] if base else []
-    return ok(
+    agree = (
         why(from_text == base, "text", from_text, base) and why(from_file == base, "file") and e_text == base
         and it_text == base and it_file == base and q_file == base
         and ([m_text.obj] if m_text is not None else []) == first
     )
+    if not agree:
+        return ok(False)
+    # JSON text may start with blank space; the async entry points read text and files the same way
+    padded = pick(["\n ", " ", "\t\r\n"], i0 % 3) + json.dumps(doc, indent=1 if b0 else None) + "\n"
+    if not why(COMPILED.findall(padded) == base and COMPILED.findall(io.StringIO(padded)) == base, "blank-space-led JSON text", padded):
+        return ok(False)
+    a_text = drive(COMPILED.findall_async(text))
+    a_file = drive(COMPILED.findall_async(io.StringIO(text)))
+    a_bytes = drive(alist(drive(COMPILED.finditer_async(io.BytesIO(text.encode("utf-8"))))))
+    if not why(a_text == base and a_file == base and [m.obj for m in a_bytes] == base, "async on text / file", a_text, a_file):
+        return ok(False)
+    # history: results obtained from the text are the caller's to modify; a second call on the same text starts afresh
+    for v in from_text:
+        if isinstance(v, list):
+            v.append("mut")
+        elif isinstance(v, dict):
+            v["mut"] = 1
+    again = COMPILED.findall(text)
+    return ok(why(again == base, "second call on the same JSON text sees the first call's results", again, base))
